@@ -117,7 +117,10 @@ def run_history(case, root, ID, ls_after_each=False):
                 ign |= s2.unspec
                 s2 = s2.parent
             got = {x for x in got if not x.startswith("k_")} - ign
-            want = {x for x in want if not x.startswith("k_")} - ign
+            # (names the base environment defines anyway cannot be told
+            # apart in ls(): they are left out on both sides)
+            want = {x for x in want if not x.startswith("k_")} - ign \
+                - baseline[inst]
             want.discard("checkerlang_module_path")
             got.discard("checkerlang_module_path")
             observed.append({"op": idx, "ls_extra": sorted(got - want),
